@@ -77,8 +77,9 @@ def api_items(entries, thorough):
             for oi, op in enumerate(("get", "get_many")):
                 clients = ["sync", "async"] if small and (cn == "v2c" or thorough) else [["sync", "async"][(ei // step + oi + ci + ei) % 2]]
                 for client in clients:
-                    oids = ["1.3.6.1.4.1.9999.1.0"] if op == "get" else ["1.3.6.1.4.1.9999.1.0", "1.3.6.1.4.1.9999.2.0"]
-                    items.append((client, std[cn], op, oids, api_answer(agent, e, ei), dict(cfg=cn, op=op, entry=e, api=client, variant=ei)))
+                    # get_many asks for both names, or for the first only: the dict holds the RETURNED varbinds, asked for or not
+                    oids = ["1.3.6.1.4.1.9999.1.0"] if (op == "get" or (ei + len(items)) % 2) else ["1.3.6.1.4.1.9999.1.0", "1.3.6.1.4.1.9999.2.0"]
+                    items.append((client, std[cn], op, oids, api_answer(agent, e, ei), dict(cfg=cn, op=op, entry=e, api=client, variant=ei, oids=oids)))
     return items
 
 
@@ -148,7 +149,7 @@ def replay(path):
     info = d["replay"]["info"]
     rec = trace.Recorder("c07-replay")
     if "api" in info:
-        oids = ["1.3.6.1.4.1.9999.1.0"] if info["op"] == "get" else ["1.3.6.1.4.1.9999.1.0", "1.3.6.1.4.1.9999.2.0"]
+        oids = info.get("oids") or (["1.3.6.1.4.1.9999.1.0"] if info["op"] == "get" else ["1.3.6.1.4.1.9999.1.0", "1.3.6.1.4.1.9999.2.0"])
         apiscripts.exchanges(rec, [(info["api"], scripts.std_cfgs()[info["cfg"]], info["op"], oids, api_answer(ag.Agent(), info["entry"], info.get("variant", 0)), info)])
     else:
         a, b = case(rec, scripts.std_cfgs()[info["cfg"]], ag.Agent(), info["op"], info["entry"], es=info.get("es", 0))
